@@ -13,6 +13,10 @@ pub trait Write {
             r is Err ==> exists|n: int| 0 <= n <= buf@.len() && final(self).out() == old(self).out() + buf@.subrange(0, n);
     fn flush(&mut self) -> (r: Result<(), IoError>)
         ensures final(self).out() == old(self).out();
+    // write: some prefix of the buffer is appended (possibly all of it, possibly nothing on error)
+    fn write(&mut self, buf: &[u8]) -> (r: Result<usize, IoError>)
+        ensures r matches Ok(n) ==> n <= buf@.len() && final(self).out() == old(self).out() + buf@.subrange(0, n as int),
+            r is Err ==> final(self).out() == old(self).out();
 }
 // the mapping function `Arc<dyn Fn(Vec<u8>) -> Vec<u8> + Sync + Send>`: assumed pure (same input, same output)
 #[verifier::external_body]
